@@ -1,6 +1,7 @@
 #!/bin/bash
 # Parallel front end of selftest.sh: splits the patches over N workers (default 4), merges the results
-# into evidence/selftest.json.   ./selftest_par.sh [N] [patches...]
+# into evidence/selftest.json.   ./selftest_par.sh [N] [patches...]   (SELFTEST_MERGE=1 keeps the recorded
+# results of patches that are not part of this run)
 cd "$(dirname "$0")" || exit 2
 export GOFLAGS=-mod=mod GOPROXY=off GOSUMDB=off GOTOOLCHAIN=local
 n=${1:-4}
@@ -27,6 +28,14 @@ import json, glob, sys, subprocess
 res = []
 for f in sorted(glob.glob(sys.argv[1] + "/part*.json")):
     res += json.load(open(f))["results"]
+import os
+if os.environ.get("SELFTEST_MERGE") and os.path.exists("evidence/selftest.json"):
+    # keep the entries of an earlier run for patches this run did not touch
+    mine = {r["mutant"] for r in res}
+    try:
+        res += [r for r in json.load(open("evidence/selftest.json"))["results"] if r["mutant"] not in mine]
+    except Exception:
+        pass
 res.sort(key=lambda r: r["mutant"])
 head = subprocess.run(["git", "-C", "/repo", "rev-parse", "--short", "HEAD"], capture_output=True, text=True).stdout.strip()
 json.dump({"selftest": "sensitivity", "repo_head": head, "results": res}, open("evidence/selftest.json", "w"), indent=0)
